@@ -132,7 +132,7 @@ def unresolved_names(relpath):
             for n in ast.walk(i): nested_ids.add(id(n))
         for n in ast.walk(fn):
             if id(n) in nested_ids: continue
-            if isinstance(n, ast.Name) and isinstance(n.ctx, ast.Load) and n.id not in scope and n.id not in modnames and not hasattr(_bi, n.id):
+            if isinstance(n, ast.Name) and isinstance(n.ctx, ast.Load) and n.id not in scope and n.id not in modnames and not hasattr(_bi, n.id) and n.id != '__logging_arguments__':     # (synthetic name left by the extraction in place of a logging call)
                 out.append((fn.name, n.id, n.lineno))
         for i in inner:
             # direct children only (deeper ones are visited recursively)
